@@ -100,14 +100,13 @@ class Reader:
         return self.i >= len(self.t)
 
 
-def run_driver(lines, timeout=1800):
+def run_driver(lines, timeout=1800, exe_name="driver_handoff"):
     """Send request lines to the model driver, return answer lines (same count)."""
-    exe = os.path.join(LEAN, ".lake", "build", "bin", "driver")
+    exe = os.path.join(LEAN, ".lake", "build", "bin", exe_name)
     data = "\n".join(lines) + "\n"
-    if os.path.exists(exe):
-        cmd = [exe]
-    else:
-        cmd = ["lake", "env", "lean", "--run", "Driver/Main.lean"]
+    if not os.path.exists(exe):
+        raise RuntimeError("model driver %s is not built" % exe_name)
+    cmd = [exe]
     p = subprocess.run(cmd, input=data, capture_output=True, text=True, cwd=LEAN, timeout=timeout)
     if p.returncode != 0:
         raise RuntimeError("driver failed: rc=%s stderr=%s" % (p.returncode, p.stderr[-2000:]))
